@@ -44,6 +44,11 @@ CL = {2901: 'output naming accepted / refused against the rule', 2902: 'keys of 
       2933: 'a per-dataset file name differs', 2934: 'merged file missing or misnamed',
       2935: 'per-dataset files do not add up to the run that does not split by dataset',
       2936: 'a row of the merged file is not the row of the file the rule picks (most cells of that cluster)',
+      2941: 'a back pointer resolves to another file than the rule names',
+      2942: 'the query-marker stage ran / stopped against the back-pointer rule',
+      2943: 'the composite runner (query markers from a p-value mask) ran / stopped against the back-pointer rule',
+      2944: 'composite result differs from the two runners run one by one',
+      2945: 'the composite runner left something in its scratch directory',
       2921: 'the validation runner failed on a file it must accept',
       2922: 'the valid file is not the one the rule names (written / copy of the input / the input)',
       2923: 'cells, genes or matrix of the valid file are not the expected ones',
@@ -228,6 +233,64 @@ def _pipeline_case(args):
             with h5py.File(d / 'cli' / 'refm_mask.h5', 'r') as f:
                 if json.loads(f['metadata'][()].decode()).get('precomputed_path') != tp['stats']:
                     issues.append(('runner:p-mask', 'markers from the p-value mask do not name their statistics file'))
+            # ---- back pointers: the statistics file named by the p-value mask / the marker file is there, or only a file
+            # of the same name next to the pointing file, or neither - with and without permission to search
+            from cell_type_mapper.utils.config_utils import patch_child_to_parent
+            from cell_type_mapper.cli.query_markers_from_p_value_mask import QueryMarkersFromPValueMaskRunner
+            combos = [(c_, s_, a_) for c_ in (True, False) for s_ in (True, False) for a_ in (True, False)]
+            if quick:
+                combos = prng.sample(combos, 3)
+            staged_lookup = None
+            for child, search, alt in combos:
+                bd = pathlib.Path(tempfile.mkdtemp(dir=d))
+                (bd / 'far').mkdir()
+                (bd / 'near').mkdir()
+                (bd / 'tmp').mkdir()
+                far_stats = bd / 'far' / 'stats.h5'
+                shutil.copy(tp['stats'], far_stats)
+                # mask and marker file computed from far/stats.h5, stored in near/
+                PValueRunner(args=[], input_data={'precomputed_stats_path': str(far_stats), 'output_path': str(bd / 'near' / 'mask.h5'),
+                                                  'n_processors': P, 'tmp_dir': str(bd / 'tmp'), 'rows_at_a_time': 3}).run()
+                PValueMarkersRunner(args=[], input_data={
+                    'precomputed_stats_path': str(far_stats), 'p_value_mask_path': str(bd / 'near' / 'mask.h5'),
+                    'output_path': str(bd / 'near' / 'refm.h5'), 'n_processors': P, 'tmp_dir': str(bd / 'tmp'),
+                    'max_gb': 1, 'n_valid': 4, 'query_path': ref['path']}).run()
+                if staged_lookup is None:
+                    QueryMarkerRunner(args=[], input_data={
+                        'query_path': ref['path'], 'reference_marker_path_list': [str(bd / 'near' / 'refm.h5')],
+                        'output_path': str(bd / 'staged_qm.json'), 'n_per_utility': 2, 'n_processors': P,
+                        'tmp_dir': str(bd / 'tmp')}).run()
+                    staged_lookup = {k: v for k, v in json.load(open(bd / 'staged_qm.json')).items() if k not in ('metadata', 'log')}
+                if alt:
+                    shutil.copy(far_stats, bd / 'near' / 'stats.h5')
+                if not child:
+                    far_stats.unlink()
+                lk_, missing = patch_child_to_parent({str(far_stats): str(bd / 'near' / 'refm.h5')}, do_search=search)
+                used = 'missing' if missing else ('child' if list(lk_)[0].resolve() == far_stats.resolve() else
+                                                  'alt' if list(lk_)[0].resolve() == (bd / 'near' / 'stats.h5').resolve() else 'other')
+                brec = {'kind': 'backptr', 'child': child, 'search': search, 'alt': alt, 'used': used, 'stage_ok': True, 'comp_ok': True,
+                        'comp_same': True, 'comp_clean': True}
+                try:
+                    QueryMarkerRunner(args=[], input_data={
+                        'query_path': ref['path'], 'reference_marker_path_list': [str(bd / 'near' / 'refm.h5')],
+                        'output_path': str(bd / 'qm_stage.json'), 'n_per_utility': 2, 'n_processors': P,
+                        'tmp_dir': str(bd / 'tmp'), 'search_for_stats_file': search}).run()
+                except Exception as e:                    # noqa
+                    brec['stage_ok'] = False
+                    brec['stage_error'] = f'{type(e).__name__}: {str(e)[:120]}'
+                try:
+                    QueryMarkersFromPValueMaskRunner(args=[], input_data={
+                        'query_path': ref['path'], 'p_value_mask_path': str(bd / 'near' / 'mask.h5'),
+                        'output_path': str(bd / 'qm_comp.json'), 'n_processors': P, 'tmp_dir': str(bd / 'tmp'), 'max_gb': 1,
+                        'search_for_stats_file': search, 'query_markers': {'n_per_utility': 2},
+                        'reference_markers': {'n_valid': 4}}).run()
+                    comp = {k: v for k, v in json.load(open(bd / 'qm_comp.json')).items() if k not in ('metadata', 'log')}
+                    brec['comp_same'] = comp == staged_lookup
+                except Exception as e:                    # noqa
+                    brec['comp_ok'] = False
+                    brec['comp_error'] = f'{type(e).__name__}: {str(e)[:120]}'
+                brec['comp_clean'] = os.listdir(bd / 'tmp') == []
+                recs.append(brec)
             # ---- on-the-fly against the three runners one by one, and with faults
             query = ref['path']
             ta = {'normalization': 'raw', 'bootstrap_iteration': prng.randint(3, 12), 'bootstrap_factor': prng.choice([0.5, 0.7, 0.9]),
@@ -561,10 +624,10 @@ def run(ctx):
             for sig, msg in issues:
                 ctx.report(sig, msg, {'pipeline_seed': job[0]})
             for r in rs:
-                ctx.count({'p': job[0], 'r': {k: r[k] for k in r if k not in ('error',)}}, nontrivial=r.get('ok', False))
+                ctx.count({'p': job[0], 'r': {k: r[k] for k in r if not k.endswith('error')}}, nontrivial=r.get('ok', r.get('comp_ok', False)))
                 recs.append(r)
                 owners.append({'pipeline_seed': job[0], 'quick': quick})
-        ctx.part('pipelines', run=n, otf_runs=sum(1 for r in recs if r['kind'] == 'otf'),
+        ctx.part('pipelines', run=n, otf_runs=sum(1 for r in recs if r['kind'] == 'otf'), back_pointer_cases=sum(1 for r in recs if r['kind'] == 'backptr'),
                  completed=sum(1 for r in recs if r['kind'] == 'otf' and r['ok']))
     if ctx.only in (None, 'validate'):
         res = run_tlc('Runners_VMC', cfg_text='SPECIFICATION Spec\nCONSTANTS MaxRuns = %d NMapped = 2\nINVARIANT InvFixedPoint\n'
@@ -613,6 +676,9 @@ def run(ctx):
                 'labels': r.get('labels', []) if r['kind'] == 'datasets' else [],
                 'files': r.get('files', []), 'merged': r.get('merged', True), 'additive': r.get('additive', True),
                 'census': r.get('census', []), 'mergedn': r.get('mergedn', []), 'matches': r.get('matches', []),
+                'child': r.get('child', True), 'search': r.get('search', True), 'alt': r.get('alt', True),
+                'used': r.get('used', 'child'), 'stage_ok': r.get('stage_ok', True), 'comp_ok': r.get('comp_ok', True),
+                'comp_same': r.get('comp_same', True), 'comp_clean': r.get('comp_clean', True),
                 'fixed': r.get('fixed', False), 'unk': r.get('unk', False), 'nmapped': r.get('nmapped', 0),
                 'steps': [{k: st[k] for k in ('dest', 'ok', 'vkind', 'same', 'rec')} for st in r.get('steps', [])]}
         lines.append(base)
